@@ -48,8 +48,10 @@ def run(ctx, rep):
             a1 = t["args"][1] if len(t["args"]) > 1 else None
             if a1 is not None and a1["k"] == "const" and a1.get("int") == "0":
                 continue
-            locks = ctx.all_calls(r"fs2::FileExt>?::(try_lock_exclusive|lock_exclusive)$")
-            if nm == "truncate" and any(lb["key"] == b["key"] for lb, _, _ in locks):
+            # the lock constructor = the function building the lock value; its private helpers belong to it
+            lock_bodies = sorted({lb["key"] for lb, _bi, _si, _s in ctx.all_aggregates(r"file_lock::FileLock$")})
+            lock_cone = {i.key for lk in lock_bodies for i in ctx.graph(lk).insts}
+            if nm == "truncate" and b["key"] in lock_cone:
                 n_trunc += 1
                 rep.ok("R03.1", "truncate(true) on the LOCK file", "enumerated exception (lock constructor)", where=where, nontrivial=False)
                 continue
